@@ -315,6 +315,9 @@ package jsonpatch
 //@   ensures[C18] array-ok-iff: reached(findObject#1) && con != nil && rIsAry(con) ==> ((err == nil) <==> idxAddOK(key, at(findObject#1, len(*rAryOf(con))), neg))
 //@   ensures[C18] array-inserted: reached(findObject#1) && con != nil && rIsAry(con) && err == nil ==> len(*rAryOf(con)) == at(findObject#1, len(*rAryOf(con))) + 1 && (*rAryOf(con))[idxAddVal(key, at(findObject#1, len(*rAryOf(con))))] == v
 //@   ensures[C18] value-is-patch-value: reached(value#1) && "value" in op ==> v != nil && v.raw == op["value"]
+//@   bind pErr = Path#1.1
+//@   bind aErr = add#1.0
+//@   ensures[C18] failures-have-causes: err != nil ==> pErr != nil || (reached(findObject#1) && con == nil) || (reached(add#1) && aErr != nil)
 
 //@ func (Patch).remove
 //@   callees[C18] Path, findObject, remove
@@ -331,6 +334,9 @@ package jsonpatch
 //@   ensures[C18] object-member-absent: reached(findObject#1) && con != nil && rIsDoc(con) && !at(findObject#1, key in *rDocOf(con)) ==> err != nil && isMissing(err)
 //@   ensures[C18] array-element-removed: reached(findObject#1) && con != nil && rIsAry(con) && idxRefOK(key, at(findObject#1, len(*rAryOf(con))), neg) ==> err == nil && len(*rAryOf(con)) == at(findObject#1, len(*rAryOf(con))) - 1
 //@   ensures[C18] array-element-absent: reached(findObject#1) && con != nil && rIsAry(con) && !idxRefOK(key, at(findObject#1, len(*rAryOf(con))), neg) ==> err != nil && *rAryOf(con) == at(findObject#1, *rAryOf(con))
+//@   bind pErr = Path#1.1
+//@   bind rErr = remove#1.0
+//@   ensures[C18] failures-have-causes: err != nil ==> pErr != nil || (reached(findObject#1) && con == nil) || (reached(remove#1) && rErr != nil)
 
 //@ func (Patch).replace
 //@   callees[C18] Path, value, tryDoc, tryAry, findObject, get, set
@@ -347,6 +353,9 @@ package jsonpatch
 //@   ensures[C18] bad-index: reached(findObject#1) && con != nil && rIsAry(con) && !idxRefOK(key, at(findObject#1, len(*rAryOf(con))), neg) ==> err != nil
 //@   ensures[C18] object-member-replaced: reached(findObject#1) && con != nil && rIsDoc(con) && at(findObject#1, key in *rDocOf(con)) ==> err == nil && (*rDocOf(con))[key] == v
 //@   ensures[C18] array-element-replaced: reached(findObject#1) && con != nil && rIsAry(con) && idxRefOK(key, at(findObject#1, len(*rAryOf(con))), neg) ==> err == nil && len(*rAryOf(con)) == at(findObject#1, len(*rAryOf(con))) && (*rAryOf(con))[idxRefVal(key, len(*rAryOf(con)))] == v
+//@   bind gErr = get#1.1
+//@   bind sErr = set#1.0
+//@   ensures[C18] failures-have-causes: err != nil && reached(findObject#1) ==> con == nil || (reached(get#1) && gErr != nil) || (reached(set#1) && sErr != nil)
 
 //@ func (Patch).move
 //@   callees[C18] From, findObject, get, remove, Path, add
@@ -367,6 +376,12 @@ package jsonpatch
 //@   ensures[C18] removed-before-resolving-array: reached(findObject#2) && rIsAry(con) ==> pre(findObject#2, len(*rAryOf(con))) == at(findObject#1, len(*rAryOf(con))) - 1
 //@   ensures[C18] object-destination: reached(findObject#2) && dst != nil && rIsDoc(dst) && *rDocOf(dst) != nil ==> err == nil && dstKey in *rDocOf(dst) && (*rDocOf(dst))[dstKey] == at(findObject#1, rConAt(con, key))
 //@   ensures[C18] array-destination: reached(findObject#2) && dst != nil && rIsAry(dst) && err == nil ==> (*rAryOf(dst))[idxAddVal(dstKey, at(findObject#2, len(*rAryOf(dst))))] == at(findObject#1, rConAt(con, key))
+//@   bind fErr = From#1.1
+//@   bind gErr = get#1.1
+//@   bind rErr = remove#1.0
+//@   bind pErr = Path#1.1
+//@   bind aErr = add#1.0
+//@   ensures[C18] failures-have-causes: err != nil ==> fErr != nil || (reached(findObject#1) && con == nil) || (reached(get#1) && gErr != nil) || (reached(remove#1) && rErr != nil) || (reached(Path#1) && pErr != nil) || (reached(findObject#2) && dst == nil) || (reached(add#1) && aErr != nil)
 
 //@ func (Patch).test
 //@   callees[C18] Path, value, equal, findObject, get
@@ -382,6 +397,9 @@ package jsonpatch
 //@   ensures[C18] bad-index-is-not-test-failed: reached(findObject#1) && con != nil && rIsAry(con) && !at(findObject#1, rConHas(con, key, neg)) ==> err != nil && !isTestFailed(err)
 //@   ensures[C18] decoded-null-vs-value: reached(findObject#1) && con != nil && at(findObject#1, rConHas(con, key, neg) && rConAt(con, key) == nil) ==> ((err == nil) <==> (!("value" in op) || op["value"] == nil))
 //@   ensures[C18] mismatch-is-test-failed: reached(findObject#1) && con != nil && at(findObject#1, rConHas(con, key, neg)) && err != nil ==> isTestFailed(err)
+//@   bind pErr = Path#1.1
+//@   bind gErr = get#1.1
+//@   ensures[C18] failures-have-causes: err != nil ==> pErr != nil || isTestFailed(err) || (reached(findObject#1) && con == nil) || (reached(get#1) && gErr != nil)
 
 //@ func (Patch).copy
 //@   callees[C18] From, findObject, get, Path, deepCopy, NewAccumulatedCopySizeError, add
@@ -406,6 +424,11 @@ package jsonpatch
 //@   ensures[C18] object-member-copied: reached(deepCopy#1) && dcErr == nil && !isCopyLimit(err) && rIsDoc(dst) && *rDocOf(dst) != nil ==> err == nil && dstKey in *rDocOf(dst) && (*rDocOf(dst))[dstKey] == cp
 //@   ensures[C18] array-element-copied: reached(deepCopy#1) && dcErr == nil && !isCopyLimit(err) && rIsAry(dst) && err == nil ==> (*rAryOf(dst))[idxAddVal(dstKey, at(deepCopy#1, len(*rAryOf(dst))))] == cp
 //@   ensures[C18,C09] independent-duplicate: reached(deepCopy#1) && dcErr == nil && cp != nil ==> fresh(cp) && fresh(cp.raw) && cp.which == eRaw
+//@   bind fErr = From#1.1
+//@   bind gErr = get#1.1
+//@   bind pErr = Path#1.1
+//@   bind aErr = add#1.0
+//@   ensures[C18] failures-have-causes: err != nil ==> fErr != nil || (reached(findObject#1) && con == nil) || (reached(get#1) && gErr != nil) || (reached(Path#1) && pErr != nil) || (reached(findObject#2) && dst == nil) || (reached(deepCopy#1) && dcErr != nil) || isCopyLimit(err) || (reached(add#1) && aErr != nil)
 
 // ---- exported entry points ----
 
